@@ -740,7 +740,46 @@ func c01StatScenario(dotu bool) Scenario {
 				}
 			}
 		}
-		res.Samples = append(res.Samples, "PackDir/UnpackDir over the stat domains alone and in concatenations of up to 3; InitRread(n)+SetRreadCount(c) for all c<=n<=24, in every order with SetTag before/after and a second lower count")
+		// payloads that already live in the message's own buffer (a file server reading
+		// straight into the reply buffer, a client building a Twrite in place): at the
+		// payload's final position, and further on in the buffer
+		for _, n := range []int{0, 1, 7, 100} {
+			for _, shift := range []int{0, 1, 50, 100} {
+				for _, kind := range []string{"Rread", "Twrite", "Rread-after-InitRread"} {
+					pos := 11
+					if kind == "Twrite" {
+						pos = 23
+					}
+					fc := go9p.NewFcall(uint32(pos + 300))
+					if kind == "Rread-after-InitRread" {
+						if go9p.InitRread(fc, 200) != nil {
+							continue
+						}
+					}
+					src := fc.Buf[pos+shift : pos+shift+n]
+					d := make([]byte, n)
+					for i := range d {
+						d[i] = byte(i*7 + n + shift)
+					}
+					copy(src, d)
+					var err error
+					var want []byte
+					if kind == "Twrite" {
+						err = go9p.PackTwrite(fc, 5, 77, uint32(n), src)
+						want = wire.Encode(&wire.Msg{Type: wire.Twrite, Tag: wire.NOTAG, Fid: 5, Offset: 77, Data: d}, dotu)
+					} else {
+						err = go9p.PackRread(fc, src)
+						want = wire.Encode(&wire.Msg{Type: wire.Rread, Tag: wire.NOTAG, Data: d}, dotu)
+					}
+					if err != nil || !bytes.Equal(fc.Pkt, want) {
+						fail("C01/payload-in-own-buffer/"+kind, fmt.Sprintf("%s with a %d-byte payload taken from the message's own buffer %d bytes behind its final position: err %v, packet % x want % x", kind, n, shift, err, fc.Pkt, want))
+					}
+					res.Evals++
+					res.Nontrivial++
+				}
+			}
+		}
+		res.Samples = append(res.Samples, "PackDir/UnpackDir over the stat domains alone and in concatenations of up to 3; payloads aliasing the message's own buffer; InitRread(n)+SetRreadCount(c) for all c<=n<=24, in every order with SetTag before/after and a second lower count")
 		return res
 	}}
 }
